@@ -1045,3 +1045,25 @@ Section CustomPosition.
     rewrite nth_error_map, Hp. reflexivity.
   Qed.
 End CustomPosition.
+
+(* ================================================================ bind and replace_params; decidable premises *)
+
+(* bind is replace_params with the substituted parameters, as MatrixFactoryGate.bind is written, through every
+   Controlled / Dagger wrapper *)
+Lemma bind_replace_params (m : smap) (g : gate) : has_pe g = false ->
+  bind m g = replace_params (map (sub_symbols m) (gate_params g)) g.
+Proof.
+  induction g as [nm h q ps|d ps|k w IH|w IH|w IH e|w IH]; simpl; intros Hp; try discriminate; try reflexivity.
+  - rewrite (IH Hp). reflexivity.
+  - rewrite (IH Hp). reflexivity.
+Qed.
+
+Definition cdef_closedb (d : cdef) (ps : list param) : bool :=
+  forallb (fun row => forallb (fun e => forallb (fun s => mem s (firstn (List.length ps) (cformals d))) (free e)) row)
+          (crows d).
+Lemma cdef_closedb_sound (d : cdef) (ps : list param) : cdef_closedb d ps = true -> cdef_closed d ps.
+Proof.
+  unfold cdef_closedb, cdef_closed. intros H row e s Hrow He Hs.
+  rewrite forallb_forall in H. specialize (H row Hrow). rewrite forallb_forall in H. specialize (H e He).
+  rewrite forallb_forall in H. apply mem_In. apply H. exact Hs.
+Qed.
